@@ -1,10 +1,11 @@
 #!/bin/bash
-# Thorough tier: (1) checker self-test — every source-level variant under mutants/<prop>/ and every
-# seeded change under seeded/*/ that names <prop> and is marked static-detectable is applied to a
-# scratch copy of /repo (outside /repo and /verif, removed immediately), analysed in a separate
-# process and must be reported at the expected obligation; every *.benign.patch must stay silent;
-# (2) the property is decided on /repo's current tree with the precise (VTA) call graph; that verdict
-# alone determines exit 0/1; a self-test miss is exit 2 ("checker broken").
+# Thorough tier: (1) checker self-test — every source-level variant under mutants/<prop>/, every
+# refactoring bundle under benign_all/ and every seeded change under seeded/*/ that names <prop> and
+# is marked static-detectable is applied to a scratch copy of /repo (outside /repo and /verif,
+# removed immediately), analysed in a separate process: mutants and seeds must be reported at the
+# expected obligation, every *.benign.patch must stay silent; (2) the property is decided on /repo's
+# current tree with the precise (VTA) call graph; that verdict alone determines exit 0/1; a
+# self-test miss is exit 2 ("checker broken").  Variants run VERIF_JOBS (default 6) at a time.
 set -u
 cd "$(dirname "$0")"
 VERIF="$(pwd)"
@@ -12,13 +13,13 @@ PROP="$1"
 BIN="$VERIF/.bin/wharfcheck"
 REPO="${WHARF_REPO:-/repo}"
 TMPBASE="${TMPDIR:-/tmp}"
-RESULTS="$(mktemp "$TMPBASE/wharf-selftest-XXXXXX.json")"
-trap 'rm -f "$RESULTS"' EXIT
-echo '[' > "$RESULTS"
-first=1
-fail=0
-run_variant() {  # $1 patch file, $2 kind (mutant|benign|seeded), $3 expect substring
-  local pf="$1" kind="$2" expect="$3" name
+JOBS="${VERIF_JOBS:-6}"
+WORK="$(mktemp -d "$TMPBASE/wharf-selftest-XXXXXX")"
+trap 'rm -rf "$WORK"' EXIT
+export BIN REPO PROP VERIF TMPBASE WORK
+
+run_variant() {  # $1 index, $2 patch file, $3 kind (mutant|benign|seeded), $4 expect substring
+  local idx="$1" pf="$2" kind="$3" expect="$4" name
   name="$(basename "$(dirname "$pf")")/$(basename "$pf")"
   local scratch
   scratch="$(mktemp -d "$TMPBASE/wharf-mut-XXXXXX")"
@@ -35,25 +36,30 @@ run_variant() {  # $1 patch file, $2 kind (mutant|benign|seeded), $3 expect subs
       if [ $rc -ne 1 ]; then verdict="FAIL"; detail="variant not reported (rc=$rc)";
       elif [ -n "$expect" ] && ! grep -qF -- "$expect" <<<"$out"; then verdict="FAIL"; detail="reported, but not at the expected obligation: $expect"; fi
     fi
-    if [ "$verdict" = FAIL ]; then echo "SELFTEST-FAIL $name: $detail" >&2; echo "$out" | tail -15 >&2; fail=1; fi
+    if [ "$verdict" = FAIL ]; then { echo "SELFTEST-FAIL $name: $detail"; echo "$out" | tail -15; } > "$WORK/$idx.fail"; fi
   fi
   rm -rf "$scratch"
-  [ $first -eq 1 ] || echo ',' >> "$RESULTS"
-  first=0
-  python3 -c 'import json,sys; print(json.dumps({"variant":sys.argv[1],"kind":sys.argv[2],"expect":sys.argv[3],"result":sys.argv[4],"detail":sys.argv[5]}))' "$name" "$kind" "$expect" "$verdict" "$detail" >> "$RESULTS"
-  echo "selftest $kind $name: $verdict $detail"
+  python3 -c 'import json,sys; print(json.dumps({"variant":sys.argv[1],"kind":sys.argv[2],"expect":sys.argv[3],"result":sys.argv[4],"detail":sys.argv[5]}))' "$name" "$kind" "$expect" "$verdict" "$detail" > "$WORK/$idx.json"
+  echo "selftest $kind $name: $verdict $detail" > "$WORK/$idx.line"
 }
+export -f run_variant
+
+# ---- the list of variants: index <TAB> patch <TAB> kind <TAB> expect
+LIST="$WORK/list.tsv"
+: > "$LIST"
+n=0
+add() { n=$((n+1)); printf '%04d\t%s\t%s\t%s\n' "$n" "$1" "$2" "$3" >> "$LIST"; }
 shopt -s nullglob
 for pf in "$VERIF"/mutants/"$PROP"/*.patch; do
   expect="$(grep -m1 '^# expect:' "$pf" | sed 's/^# expect: *//')"
   case "$pf" in
-    *.benign.patch) run_variant "$pf" benign "" ;;
-    *) run_variant "$pf" mutant "$expect" ;;
+    *.benign.patch) add "$pf" benign "" ;;
+    *) add "$pf" mutant "$expect" ;;
   esac
 done
 # behaviour-preserving refactoring bundles: every property must stay silent on each
 for pf in "$VERIF"/benign_all/*.benign.patch; do
-  run_variant "$pf" benign ""
+  add "$pf" benign ""
 done
 for meta in "$VERIF"/seeded/*/meta.json; do
   d="$(dirname "$meta")"
@@ -64,10 +70,36 @@ sys.exit(0 if (m.get("property")==sys.argv[2] and m.get("static_detected")) else
 PY
   then
     expect="$(python3 -c 'import json,sys; print(json.load(open(sys.argv[1])).get("expect",""))' "$meta")"
-    run_variant "$d/patch.diff" seeded "$expect"
+    add "$d/patch.diff" seeded "$expect"
   fi
 done
-echo ']' >> "$RESULTS"
+
+# ---- run them, JOBS at a time
+while IFS=$'\t' read -r idx pf kind expect; do
+  while [ "$(jobs -rp | wc -l)" -ge "$JOBS" ]; do wait -n; done
+  run_variant "$idx" "$pf" "$kind" "$expect" &
+done < "$LIST"
+wait
+
+# ---- collect in order
+RESULTS="$WORK/results.json"
+fail=0
+{
+  echo '['
+  first=1
+  while IFS=$'\t' read -r idx pf kind expect; do
+    [ -f "$WORK/$idx.json" ] || { echo "SELFTEST-FAIL $pf: no result" >&2; fail=1; continue; }
+    [ $first -eq 1 ] || echo ','
+    first=0
+    cat "$WORK/$idx.json"
+  done < "$LIST"
+  echo ']'
+} > "$RESULTS"
+while IFS=$'\t' read -r idx pf kind expect; do
+  [ -f "$WORK/$idx.line" ] && cat "$WORK/$idx.line"
+  if [ -f "$WORK/$idx.fail" ]; then cat "$WORK/$idx.fail" >&2; fail=1; fi
+done < "$LIST"
+
 "$BIN" -prop "$PROP" -tier thorough -repo "$REPO" -verif "$VERIF" -selftest "$RESULTS" ${VERIF_VERBOSE:+-v}
 rc=$?
 if [ $fail -ne 0 ] && [ $rc -ne 1 ]; then
